@@ -191,6 +191,33 @@ Definition src_index (real : bool) (ns j : list Z) : list Z :=
 Definition arrange {V} (d : V) (real : bool) (ns : list Z) (bins : list V) : list V :=
   map (fun j => nth (Z.to_nat (ravel_c ns (src_index real ns j))) bins d) (indices_c (kshape real ns)).
 
+(* inverse transforms: Field.ifftn / irfftn hand ifftshift(array) (all axes / all but the last) to
+   scipy; position m of that array reads the field's array at isrc_index m *)
+Definition isrc_axis (real_last : bool) (k j : Z) : Z :=
+  if real_last then j else ifftshift_src k j.
+
+Definition isrc_index (real : bool) (ks j : list Z) : list Z :=
+  map3 (fun k (l : bool) i => isrc_axis (real && l) k i) ks (last_flags (length ks)) j.
+
+(* [ks] = shape of the k-space array *)
+Definition unarrange {V} (d : V) (real : bool) (ks : list Z) (arr : list V) : list V :=
+  map (fun m => nth (Z.to_nat (ravel_c ks (isrc_index real ks m))) arr d) (indices_c ks).
+
+(* the part of a natural-order spectrum (shape ns) that the real transform keeps: bins
+   0..n//2 of the last axis (everything for the full transform) *)
+Definition half_spectrum {V} (d : V) (real : bool) (ns : list Z) (bins : list V) : list V :=
+  map (fun m => nth (Z.to_nat (ravel_c ns m)) bins d) (indices_c (kshape real ns)).
+
+(* the four field transforms around an abstract n-d DFT [F ns] (natural order, C-order lists) and
+   its inverses [G] (complex: shape = the array's own; real: output shape [sh] is the argument
+   s=shape of irfftn) -- scipy's part is the parameter, the shifts are the code's *)
+Definition field_fftn {V} (F : list Z -> list V -> list V) (d : V) (real : bool) (ns : list Z) (x : list V) : list V :=
+  arrange d real ns (F ns x).
+Definition field_ifftn {V} (G : list Z -> list V -> list V) (d : V) (ks : list Z) (a : list V) : list V :=
+  G ks (unarrange d false ks a).
+Definition field_irfftn {V} (G : list Z -> list V -> list V) (d : V) (sh ks : list Z) (a : list V) : list V :=
+  G sh (unarrange d true ks a).
+
 (* frequency (k-cell centre) the model assigns to array position j along an axis *)
 Definition kcentre (real_last : bool) (k : Z) (c : Q) (j : Z) : Q :=
   let '(lo, hi, nk) := kaxis real_last k c in i2p1 lo (cell_of lo hi nk) j.
